@@ -62,6 +62,26 @@ func PrepareReadOps(ops []Op) []Op {
 	return out
 }
 
+// AddDirectedMetaOps weaves a metadata save on an account at the very beginning of a (prepared) history and
+// the deletion of that key in its middle, so that point-in-time reads between the two instants exist
+// (the random generator alone rarely produces "save k ... delete k" on one account).
+func AddDirectedMetaOps(ops []Op, target string) []Op {
+	if len(ops) < 4 {
+		return ops
+	}
+	first := Op{K: "acmeta", L: ops[0].L, Addr: target, Meta: map[string]string{"k": "v", "role": "w"}, Now: 2}
+	first.Norm()
+	mid := len(ops)/2 + 1
+	del := Op{K: "unacmeta", L: ops[0].L, Addr: target, Key: "k", Now: ops[mid].Now}
+	del.Norm()
+	out := make([]Op, 0, len(ops)+2)
+	out = append(out, first)
+	out = append(out, ops[:mid]...)
+	out = append(out, del)
+	out = append(out, ops[mid:]...)
+	return out
+}
+
 var (
 	rdAddrs    = []string{"users:a:main", "users:b:main", "users:a", "orders:1", "orders:2:main", "world", "nobody"}
 	rdPatterns = []string{
@@ -187,7 +207,9 @@ type TplParams struct {
 	XEvol  bool   `json:"xevol"`
 }
 
-func (p TplParams) any() bool { return p.HPit || p.HOot || p.HIns || p.HGrp || p.HSize || p.HOrder || p.HExp }
+func (p TplParams) any() bool {
+	return p.HPit || p.HOot || p.HIns || p.HGrp || p.HSize || p.HOrder || p.HExp
+}
 
 type Tpl struct {
 	ID     string            `json:"id"`
@@ -253,16 +275,16 @@ type PrevProbe struct {
 }
 
 type ReadOut struct {
-	Status string  `json:"status"` // ok | validation | not_found | internal
-	Msg    string  `json:"msg,omitempty"`
-	Pages  []Page  `json:"pages"`
+	Status string      `json:"status"` // ok | validation | not_found | internal
+	Msg    string      `json:"msg,omitempty"`
+	Pages  []Page      `json:"pages"`
 	PErr   string      `json:"perr"`  // "" or what went wrong while following cursors (next:/previous:/full: + class, endless)
 	Prevs  []PrevProbe `json:"prevs"` // prevs[k]: the page reached by `previous` from pages[k+1], and by `next` from there
-	PrevOK bool    `json:"prevChecked"`
-	Full   []any   `json:"full"`   // the same query in ONE page (pageSize 100): the reference enumeration for pagination
-	FullOK bool    `json:"fullOK"` // full was requested and answered
-	Count  int     `json:"count"` // -1: not requested
-	OD     bool    `json:"od"`    // some result of this read depends on an order the query does not specify
+	PrevOK bool        `json:"prevChecked"`
+	Full   []any       `json:"full"`   // the same query in ONE page (pageSize 100): the reference enumeration for pagination
+	FullOK bool        `json:"fullOK"` // full was requested and answered
+	Count  int         `json:"count"`  // -1: not requested
+	OD     bool        `json:"od"`     // some result of this read depends on an order the query does not specify
 }
 
 // JEntry is one metadata write carried by the logs.
@@ -730,6 +752,11 @@ func (e *Env) ExecRead(l string, q ReadQ) (ReadOut, error) {
 		}
 		p, err := e.pageOf(res, v)
 		if err != nil {
+			if q.IsTpl {
+				// the response of a template run cannot be mapped to the abstract domain exactly (an amount that is
+				// not a multiple of the scale): recorded as the outcome "inexact", judged by TLC
+				return nil, "inexact", err.Error(), nil
+			}
 			return nil, st, "", err
 		}
 		return &p, st, "", nil
@@ -751,6 +778,9 @@ func (e *Env) ExecRead(l string, q ReadQ) (ReadOut, error) {
 		}
 		if p == nil {
 			out.PErr, out.Msg = "next:"+st, msg
+			if st == "inexact" {
+				out.Status = "inexact"
+			}
 			return out, nil
 		}
 		out.Pages = append(out.Pages, *p)
@@ -771,6 +801,9 @@ func (e *Env) ExecRead(l string, q ReadQ) (ReadOut, error) {
 				}
 				if pp == nil {
 					out.PErr, out.Msg = "previous:"+st, msg
+					if st == "inexact" {
+						out.Status = "inexact"
+					}
 					return out, nil
 				}
 				pr.Has, pr.Items = true, pp.Items
@@ -781,6 +814,9 @@ func (e *Env) ExecRead(l string, q ReadQ) (ReadOut, error) {
 					}
 					if pn == nil {
 						out.PErr, out.Msg = "previous-next:"+st, msg
+						if st == "inexact" {
+							out.Status = "inexact"
+						}
 						return out, nil
 					}
 					pr.HasNext, pr.NItems = true, pn.Items
@@ -1279,7 +1315,7 @@ type ReadsCase struct {
 	Seed     int64             `json:"seed"`
 	Scale    string            `json:"scale"`
 	Features map[string]string `json:"features"`
-	Ops      []Op              `json:"ops"`   // prepared (PrepareReadOps)
+	Ops      []Op              `json:"ops"`    // prepared (PrepareReadOps)
 	Points   []int             `json:"points"` // read after this many operations
 	Reads    int               `json:"reads"`  // direct reads per case (spread over the points)
 	TplRuns  int               `json:"tplRuns"`
